@@ -28,8 +28,18 @@ import (
 	"verif/internal/ev"
 )
 
-const verifRoot = "/verif"
-const repoRoot = "/repo"
+// verifRoot and repoRoot are fixed for registered commands; the environment
+// overrides exist only so that development copies (sub-agents working in a
+// scratch worktree) can run the same driver without touching /repo or /verif.
+var verifRoot = envOr("VERIF_ROOT", "/verif")
+var repoRoot = envOr("VERIF_REPO", "/repo")
+
+func envOr(k, d string) string {
+	if v := os.Getenv(k); v != "" {
+		return v
+	}
+	return d
+}
 
 type job struct {
 	name    string
@@ -158,7 +168,7 @@ func main() {
 	os.RemoveAll(c.out)
 	os.MkdirAll(c.out, 0o755)
 	c.env = append(baseEnv(), "VERIF_TIER="+tierName, "VERIF_SEED="+strconv.FormatInt(seed, 10),
-		"VERIF_SCRATCH="+scratchDir, "TMPDIR="+scratchDir)
+		"VERIF_SCRATCH="+scratchDir, "TMPDIR="+scratchDir, "VERIF_ROOT="+verifRoot, "VERIF_REPO="+repoRoot)
 
 	// Build the property's test binary from the current tree.
 	c.bin = filepath.Join(scratchDir, id+".test")
